@@ -144,6 +144,7 @@ typedef int (*prog_cb)(ctx_t *c, int lineno, const char *line, void *ud);
 int prog_exec(ctx_t *c, const char *text, prog_cb cb, void *ud);
 
 /* matrix generators (harness arithmetic, never the library's) */
+extern uint64_t gen_world_seed;
 void gen_fill(mzd_t *M, const char *gen, long p, uint64_t seed);
 void gen_perm(mzp_t *P, const char *gen, uint64_t seed, rci_t bound);
 int strassen_guard_ok(long m, long k, long n, long cutoff);
